@@ -142,7 +142,7 @@ func dEntries(c *Ctx) []*ssa.Function {
 func callsDeep(c *Ctx, f *ssa.Function, depth int) []ssa.CallInstruction {
 	var out []ssa.CallInstruction
 	for _, ci := range calls(f) {
-		if sc := ci.Common().StaticCallee(); sc != nil && depth < 2 && c.freshHelper(sc) {
+		if sc := ci.Common().StaticCallee(); sc != nil && depth < 2 && c.freshFunc(sc) {
 			out = append(out, callsDeep(c, sc, depth+1)...)
 			continue
 		}
@@ -380,7 +380,7 @@ func ruleScale(rule string) func(*Ctx) {
 		for i := 0; i < len(entries); i++ {
 			for _, ci := range calls(entries[i]) {
 				h := ci.Common().StaticCallee()
-				if h == nil || !c.freshHelper(h) || entrySet[c.fname(h)] {
+				if h == nil || !c.freshFunc(h) || entrySet[c.fname(h)] {
 					continue
 				}
 				hasD := false
@@ -1078,7 +1078,7 @@ func skeletonWith(c *Ctx, f *ssa.Function, bind map[*ssa.Parameter]string, depth
 	sort.SliceStable(cs, func(i, j int) bool { return cs[i].Pos() < cs[j].Pos() })
 	var out []string
 	for _, ci := range cs {
-		if sc := ci.Common().StaticCallee(); sc != nil && depth < 2 && c.freshHelper(sc) {
+		if sc := ci.Common().StaticCallee(); sc != nil && depth < 2 && c.freshFunc(sc) {
 			b2 := map[*ssa.Parameter]string{}
 			for i, a := range ci.Common().Args {
 				if i >= len(sc.Params) {
